@@ -25,7 +25,7 @@ BOUNDS = {
     "quick": "values: all reals; %d routes; container lengths 0..3; unit pairs: a kind-covering set (scale, affine, identity, legacy spelling, "
              "category != quantity type, unknown) for every route, plus every unit <-> base of 40 seeded quantity types for the scalar routes; "
              "exponent route with e in {2,3,-1,-2} on scale-only pairs" % len(ROUTES),
-    "thorough": "values: all reals; same routes; every unit <-> its base unit of every quantity type for the four scalar routes; 1500 seeded "
+    "thorough": "values: all reals; same routes; every unit <-> its base unit of every quantity type for the four scalar routes; 12000 seeded "
                 "unit pairs for every other route; container lengths 0..3",
 }
 ASSUMPTIONS = ["A-FP: floats are exact reals", "A-NP: numpy float64 element loops are the python operator per element (dtype=object SymArray)",
@@ -76,7 +76,7 @@ def items(tier, seed):
                 continue
             us = db.GetUnits(qt)
             allp += [(qt, u, v) for u in us for v in us if u != v]
-        for qt, u, v in seeded_sample(allp, 1500, seed):
+        for qt, u, v in seeded_sample(allp, 12000, seed):
             r = rng.choice([x for x in ROUTES if x not in SCALAR_ROUTES and x not in ("own-unit.derived", "db.Convert.exp", "category-default")])
             out.append({"r": r, "qt": qt, "cat": qt, "u": u, "v": v, "n": rng.choice([1, 2, 3])})
     out[0]["canary"] = True
